@@ -758,7 +758,8 @@ def monitor(case, obs):
         # effective mask: requested bits, or the outliers
         if am is None or am == "flex":
             eff = outs
-            consistent = down is None or down == "flex" or (isinstance(down, list) and [bool(down[k]) for k in fl["tpos"]] == outs)
+            consistent = (not (am is None and down is None)) and (
+                down is None or down == "flex" or (isinstance(down, list) and [bool(down[k]) for k in fl["tpos"]] == outs))
         else:
             eff = [bool(am[k]) for k in fl["tpos"]] if isinstance(am, list) else None
     else:
